@@ -29,6 +29,8 @@ pub struct Profile {
     /// PKE encryptions / decryptions and header generations / decryptions inside the history
     pub w_pke: u32,
     pub w_hdr: u32,
+    /// percentage of histories whose master key gets more tracers than `setup` creates
+    pub tracers_pct: u32,
     /// percentage of deliberately malformed arguments
     pub malformed_pct: u32,
     /// percentage of hybridized attributes
@@ -63,6 +65,7 @@ impl Profile {
             w_forge: 0,
             w_pke: 0,
             w_hdr: 0,
+            tracers_pct: 0,
             malformed_pct: 10,
             hybrid_pct: 30,
             matrix_often: false,
@@ -495,7 +498,9 @@ impl HistGen {
             4 => "-".into(),
             0 => "x".into(),
             _ => {
-                let n = 1 + self.rng.below(40);
+                // mostly short; sometimes the lengths around the width change of the LEB128 prefix (on the wire the
+                // encrypted metadata is 28 bytes longer than the metadata)
+                let n = if self.rng.chance(1, 6) { *self.rng.pick(&[99usize, 100, 127, 128, 255, 256]) } else { 1 + self.rng.below(40) };
                 let b: Vec<u8> = (0..n).map(|_| self.rng.next() as u8).collect();
                 format!("x{}", crate::util::hex(&b))
             }
@@ -536,6 +541,10 @@ impl HistGen {
             let (u, hh) = (self.rng.below(self.next_u), self.rng.below(self.hdr_ads.len()));
             let ad = self.hdr_ads[hh].clone();
             self.emit(format!("hdr_dec U{u} H{hh} {ad}"));
+            if self.p.w_ser > 0 {
+                self.emit(format!("ser_clr U{u} H{hh} {ad}"));
+                self.emit(format!("ser H{hh}"));
+            }
         }
     }
     /// every key against every PKE ciphertext and every header
@@ -641,6 +650,11 @@ impl HistGen {
         if self.rng.chance(1, 10) {
             let n = *self.rng.pick(&[127u64, 128, 200, 16383, 16384, 70000]);
             self.emit(format!("bump_ids M0 {n}"));
+        }
+        // sometimes a higher tracing level than the API creates (crafted through the wire form)
+        if self.p.tracers_pct > 0 && self.rng.chance(self.p.tracers_pct, 100) {
+            let n = *self.rng.pick(&[3usize, 3, 4, 6]);
+            self.emit(format!("set_tracers M0 {n}"));
         }
         let nd = 1 + self.rng.below(self.p.max_dims);
         let save = self.p.malformed_pct;
